@@ -10,6 +10,9 @@ def load_checks():
     """One checks/cNN.meta.json per claimed property: {technique, text, note, design, [category], [na_reason]}."""
     res, na = {}, {}
     d = os.path.join(HERE, "checks")
+    # checks/ENABLED: ids the integrator has reviewed and registered (one per line)
+    with open(os.path.join(d, "ENABLED")) as fh:
+        enabled = set(x.strip().upper() for x in fh if x.strip() and not x.startswith("#"))
     for f in sorted(os.listdir(d)):
         if f.endswith(".meta.json"):
             with open(os.path.join(d, f)) as fh:
@@ -17,7 +20,7 @@ def load_checks():
             pid = f.split(".")[0].upper()
             if m.get("na_reason"):
                 na[pid] = m["na_reason"]
-            else:
+            elif pid in enabled:
                 res[pid] = m
     return res, na
 
